@@ -713,3 +713,16 @@ mod tests {
         assert_eq!(responses, [peers[5], peers[4], peers[3]]);
     }
 }
+
+#[cfg(litep2p_verif)]
+impl<T: Clone + Into<Vec<u8>>> FindNodeContext<T> {
+    /// Number of pending responses counted towards the parallelism factor (verification hook).
+    pub fn verif_pending_responses(&self) -> usize {
+        self.pending_responses
+    }
+
+    /// Timeout after which a pending request stops counting (verification hook).
+    pub fn verif_peer_timeout(&self) -> std::time::Duration {
+        self.peer_timeout
+    }
+}
